@@ -41,8 +41,8 @@ def main():
         print(sid, results[sid]["detected"], results[sid]["check_exit"], results[sid]["signatures"][:2], flush=True)
     sh("git checkout -q -- . && git clean -fdq", cwd=SCRATCH)
     # the unchanged scratch copy must be quiet
-    out = os.path.join(V, "seeded", "RESULTS.json")
-    old = json.load(open(out)) if os.path.exists(out) else {}
+    out = os.environ.get("SEED_RESULTS") or os.path.join(V, "seeded", "RESULTS.json")       # SEED_RESULTS: a file of this run's own ids only (for runs in halves)
+    old = json.load(open(out)) if os.path.exists(out) and not os.environ.get("SEED_RESULTS") else {}
     old.update(results)
     json.dump(old, open(out, "w"), indent=1, sort_keys=True)
     shutil.rmtree(SCRATCH, ignore_errors=True)
